@@ -1264,21 +1264,32 @@ fn tail() -> BoxedStrategy<String> {
 
 /// `parent_names`: also names that are absolute or contain a `..` component
 fn hname(parent_names: bool) -> BoxedStrategy<HName> {
-    let w = u32::from(parent_names);
-    prop_oneof![
-        3 => "[a-c]{1,2}".prop_map(HName::Normal),
-        6 * w => (1u8..=2, prop::option::weighted(0.8, tail())).prop_map(|(ups, tail)| HName::Up { ups, tail }),
-        3 * w => tail().prop_map(HName::Abs),
-        w => Just(HName::AbsDir),
-        2 => ("[a-c]", tail()).prop_map(|(a, b)| HName::Sep(a, b)),
-        1 => Just(HName::Dot),
-        1 => Just(HName::Empty),
-        1 => tail().prop_map(HName::DotSlash),
-        1 => tail().prop_map(HName::TrailingSlash),
-        2 * w => ("[a-c]", 2u8..=3, tail()).prop_map(|(a, n, b)| HName::DownUp(a, n, b)),
-        1 => tail().prop_map(HName::Nul),
-    ]
-    .boxed()
+    let mut v: Vec<(u32, BoxedStrategy<HName>)> = vec![
+        (3, "[a-c]{1,2}".prop_map(HName::Normal).boxed()),
+        (2, ("[a-c]", tail()).prop_map(|(a, b)| HName::Sep(a, b)).boxed()),
+        (1, Just(HName::Dot).boxed()),
+        (1, Just(HName::Empty).boxed()),
+        (1, tail().prop_map(HName::DotSlash).boxed()),
+        (1, tail().prop_map(HName::TrailingSlash).boxed()),
+        (1, tail().prop_map(HName::Nul).boxed()),
+    ];
+    if parent_names {
+        v.push((
+            6,
+            (1u8..=2, prop::option::weighted(0.8, tail()))
+                .prop_map(|(ups, tail)| HName::Up { ups, tail })
+                .boxed(),
+        ));
+        v.push((3, tail().prop_map(HName::Abs).boxed()));
+        v.push((1, Just(HName::AbsDir).boxed()));
+        v.push((
+            2,
+            ("[a-c]", 2u8..=3, tail())
+                .prop_map(|(a, n, b)| HName::DownUp(a, n, b))
+                .boxed(),
+        ));
+    }
+    proptest::strategy::Union::new_weighted(v).boxed()
 }
 
 fn hleaf(parent_names: bool) -> BoxedStrategy<HNode> {
